@@ -135,6 +135,7 @@ def strat_adaptive(tier):
             'cuts2': st.lists(st.integers(0, 10 ** 6), min_size=0, max_size=9),
         }), min_size=1, max_size=4),
         'bs': st.integers(1, 6), 'offset': st.sampled_from([0.0, 5.0, 100.0]), 'scale': st.sampled_from([1.0, 20.0, 0.2]),
+        'mixed_scales': st.booleans(),
     })
 
 
@@ -148,9 +149,11 @@ def run_adaptive(case):
     lay = [tuple(x) for x in case['layout']]
     W = sum(w for w, _ in lay)
     rs = np.random.RandomState(case['data_seed'])
-    obsM = rs.randn(1, W) * case['scale'] + case['offset']
+    # per-column magnitudes over many orders (a summary of order 1e-9 next to one of order 1e2)
+    colscale = np.array([1.0, 250.0, 4e-9, 0.03, 1.0, 1e-6, 1.0, 1e4, 1.0, 1.0, 1.0, 1.0])[rs.permutation(12)[:W]] if case.get('mixed_scales') else np.ones(W)
+    obsM = (rs.randn(1, W) * case['scale'] + case['offset']) * colscale
     bs = case['bs']
-    evalM = rs.randn(bs, W) * case['scale'] * 2 + case['offset']
+    evalM = (rs.randn(bs, W) * case['scale'] * 2 + case['offset']) * colscale
     ctx = 'layout=%r data_seed=%d rounds=%r' % (lay, case['data_seed'], [(r['n'], len(r['cuts'])) for r in case['rounds']])
     with must_not_raise(P, 'building AdaptiveDistance model; ' + ctx):
         m, fns = _build(lay, obsM, adaptive=True)
@@ -164,7 +167,7 @@ def run_adaptive(case):
     maxparts = 0
     for ri, rnd in enumerate(case['rounds']):
         n = rnd['n']
-        data = rs.randn(n, W) * case['scale'] * (1 + ri) + case['offset']
+        data = (rs.randn(n, W) * case['scale'] * (1 + ri) + case['offset']) * colscale
         rows = np.column_stack([fn(data) for fn in fns]).astype(float)
         sd = rows.std(axis=0)
         if np.any(sd == 0):
@@ -207,6 +210,8 @@ def run_adaptive(case):
         first = np.sqrt(((Xe - Yo) ** 2).sum(axis=1))
         if not np.allclose(after[:, 0], first, rtol=1e-10, atol=0):
             raise Violation('C12:adaptive-first-distance', 'first distance is not the plain Euclidean distance; %s' % ctx)
+    if case.get('mixed_scales'):
+        labels.append('column-magnitudes-1e-9..1e4')
     vecfirst = lay[0][0] > 1
     labels += ['rounds=%d' % len(case['rounds'])]
     if vecfirst:
